@@ -129,14 +129,17 @@ CHECKS = {
         category="proof",
         text=("Coq theorems (Properties/C19.v): the admissible window positions are exactly [0, extent) for valid/same padding with any "
               "stride/dilation; for every geometry the conv2d / conv1d / dense counts equal the cardinality of the layer's loop nest (nested "
-              "list_prod, length = product), depthwise and pooling only for depth_multiplier 1 / one output position, with refuting witnesses "
-              "for grouped convolution, depth multipliers and pooling positions (known findings); energy entries are non-negative, the total "
-              "is the floor of the exact sum and within 1 + n/200 of the printed entries, extract_energy_sum is the floor of the selected sum "
-              "(QArith). Correspondence: get_operation_count on real built layers vs brute-force loop nests and the Coq formulas, Keras output "
-              "extents vs the Coq extent functions; energy_estimate on synthetic layer maps with exact rational re-summation in Coq."),
+              "list_prod, length = product), for every group count, depth multiplier and number of pooling positions (three genuine defects "
+              "of the count formulas were repaired by fix: commits; the pre-repair formulas are kept as refuted lemmas with their witnesses); "
+              "energy entries are non-negative, the total is the floor of the exact sum and within 1 + n/200 of the printed entries, "
+              "extract_energy_sum is the floor of the selected sum (QArith). Correspondence: get_operation_count on real built layers vs "
+              "brute-force loop nests and the Coq formulas, Keras output extents vs the Coq extent functions; energy_estimate on synthetic layer "
+              "maps and on the real QTools(model).pe() pipeline: op_cost and the inputs / outputs / parameters entries vs an independent "
+              "reference of the documented placement functions (dram / sram / fixed, rd_wr_on_io, min_sram_size), totals by exact rational "
+              "re-summation in Coq."),
         design_ref="DESIGN.md section 5 C19, section 10",
         note=(TB_COMMON + "Energy polynomials and log2 are float64 functions of qenergy; entries are compared with an independent float64 "
-              "recomputation (a test), sums exactly. QTools(model) is not constructible under the pinned Keras, so layer maps are synthetic."),
+              "recomputation (a test), sums exactly. QTools(model) runs under the four accessor shims described for C18."),
         technique="Coq proof (loop-nest cardinality, QArith sums) + differential correspondence on real layers"),
     "C09": dict(
         category="proof",
